@@ -21,7 +21,7 @@ def spec_ok(tag, elems, trailing, noncanon):
 def cases(tier):
     out = []
     K = 4 if tier == 'quick' else 20
-    tags = [None, 0, 1, 2, 3, 6, 7, 8, 128, 255] if tier == 'quick' else [None] + list(range(256))
+    tags = [None, 0, 1, 2, 3, 6, 7, 8, 9, 15, 16, 17, 22, 33, 65, 129, 134, 241, 246, 128, 255] if tier == 'quick' else [None] + list(range(256))
     max_e = 5 + 6 + 2 * K + 1
     for tag in tags:
         for e in range(0, max_e + 1):
@@ -51,7 +51,8 @@ def cases(tier):
                         out.append({'cfg': {'scenario': 'codec', 'tag': d, 'elems': e, 'trailing': 0, 'noncanonical': [], 'special_scalars': [[pp, kind_]]}, 'kind': 'codec'})
     # large proofs (many folding rounds): the acceptance set has no upper size limit
     for d in (1, 2, 6):
-        for k in (9, 16, 17, 18, 20, 32, 40, 64):
+        # (incl. the widths at which a narrower round counter would wrap: 127..129, 255..257, 511..513; thorough: 65535..65537)
+        for k in (9, 16, 17, 18, 20, 32, 40, 64, 127, 128, 129, 255, 256, 257, 300, 511, 512, 513) + ((65535, 65536, 65537) if tier != 'quick' and d == 1 else ()):
             out.append({'cfg': {'scenario': 'codec', 'tag': d, 'elems': d + 5 + 2 * k, 'trailing': 0, 'noncanonical': []}, 'kind': 'codec'})
             out.append({'cfg': {'scenario': 'codec', 'tag': d, 'elems': d + 5 + 2 * k + 1, 'trailing': 0, 'noncanonical': []}, 'kind': 'codec'})
     # prover outputs: length formula and round trip, over the lattice
